@@ -12,7 +12,7 @@ TEXT = {
             'over all histories (no over-credit, window <= max = acknowledged INITIAL_WINDOW_SIZE <= 2^31-1), no stall after an '
             'acknowledgement (partial: the stall after a negative settings delta is proved to exist and is a known finding); '
             'correspondence of the whole connection model with the real library on generated programs with the application '
-            'acknowledging every byte.', 'DESIGN.md section 7 C05'),
+            'acknowledging every byte.', 'DESIGN.md section 0 and section 7 C05'),
 }
 DEFAULT_NOTE = ('Trusted: Lean kernel; axioms propext/Classical.choice/Quot.sound only (audited each run); the translators for the '
                 'regenerated parts; the differential harness for the hand-modelled parts of connection.py/stream.py/utilities.py/'
@@ -22,9 +22,9 @@ checks = []
 na = []
 for pid in ids:
     if pid in props and props[pid].get('theorems'):
-        text, ref = TEXT.get(pid, ('Lean 4 theorems about the model of this property (see props.json for the theorem names) plus a '
+        text, ref = TEXT.get(pid, ('Lean 4 theorems about the model of this property (see theorems.json for the theorem names) plus a '
                                    'correspondence check of the model against the real library under the property projection and an '
-                                   'independent oracle on the real traces.', 'DESIGN.md section 7 ' + pid))
+                                   'independent oracle on the real traces.', 'DESIGN.md section 0 and section 7 ' + pid))
         checks.append({
             'property_id': pid,
             'quick_cmd': './check %s --tier quick' % pid,
@@ -37,7 +37,7 @@ for pid in ids:
             'technique': 'machine-checked proof in Lean 4 (model regenerated/corresponded to the code each run)',
         })
     else:
-        na.append({'property_id': pid, 'reason': 'check not built yet (work in progress); see DESIGN.md'})
+        na.append({'property_id': pid, 'reason': 'not claimed: the technique applies and the model covers the code, but the property theorems are not written yet, so no check is registered (DESIGN.md section 0.1); not a statement that the property cannot be decided'})
 
 m = {
     'version': 1,
